@@ -139,3 +139,77 @@ func TestC20ServerDone(t *testing.T) {
 		}
 	}
 }
+
+// All 8 unary workers of a connection busy, more requests arrive, the
+// connection ends (Stop, or a failing reply write) before a worker frees up,
+// then the handlers return. Every RPC a stats handler was told about (TagRPC)
+// must have exactly one Begin and one End; in the unchanged code the request
+// that waits for a worker has not been started at all (no event).
+func TestC20WorkersBusy(t *testing.T) {
+	em := NewEmitter()
+	defer em.Close()
+	idx := 0
+	for _, how := range []string{"stop", "write-failure", "read-failure"} {
+		for _, extra := range []int{1, 2} {
+			for nh := 1; nh <= 3; nh++ {
+				total := 8 + extra
+				if !anyWanted(idx, nh*total) {
+					idx += nh * total
+					continue
+				}
+				stBegin(em, idx)
+				first := idx
+				hs := newStatsSet(nh)
+				bubble(t, func(t *testing.T) {
+					ep := NewEndpoint("s")
+					release := make(chan struct{})
+					impl := &echoImpl{unary: func(ctx context.Context, req []byte) ([]byte, bool, error) {
+						<-release
+						return req, true, nil
+					}}
+					srv := newEchoServer("dst", impl, serverStats(hs)...)
+					ret := make(chan error, 1)
+					go func() { ret <- srv.Serve(context.Background(), ep) }()
+					body, _ := protoMarshal(bv([]byte("q")))
+					for i := 0; i < total; i++ {
+						ep.Deliver(&Rpc{Id: uint64(1 + i), Header: hdr("/verif.Echo/Unary", "src", "dst"), Body: &goatorepo.Body{Data: body}})
+						synctest.Wait()
+					}
+					switch how {
+					case "stop":
+						srv.Stop()
+					case "write-failure":
+						ep.FailWrites(errInjected) // the next reply's write fails: the connection is cancelled
+					case "read-failure":
+						ep.FailRead(errInjected)
+					}
+					synctest.Wait()
+					close(release)
+					synctest.Wait()
+					ep.FailRead(io.EOF)
+					synctest.Wait()
+					<-ret
+				})
+				for i, h := range hs {
+					for n := 1; n <= total; n++ {
+						evs, stray := h.rpcOnly(int64(n))
+						// the model: a started RPC runs to its End (the handler returned nil); what was never
+						// handed to a worker was never started
+						exit := "(XSU (SU_run DecOk RNil))"
+						if len(evs) == 0 {
+							exit = "(XSU SU_undispatched)"
+						}
+						if want(idx) {
+							em.Emit(Rec{Idx: idx, Kind: "stats-workers-busy", Desc: map[string]any{"how": how, "extra": extra, "nh": nh, "h": i, "rpc": n},
+								Obs:  map[string]any{"events": evs},
+								Tags: []string{"role=server-unary", "exit=workers-busy-then-" + how, fmt.Sprintf("busy:started=%v", len(evs) > 0), fmt.Sprintf("handlers=%d", nh)},
+								Coq:  fmt.Sprintf("CStats %s %d %d true true %s %d", exit, nh, i, coqList(evs), stray)})
+						}
+						idx++
+					}
+				}
+				stEnd(em, first)
+			}
+		}
+	}
+}
